@@ -38,7 +38,7 @@ func init() {
 		Rules: []Rule{
 			{ID: "C20.1", Desc: "foreground never waits", Run: ruleC20_1, MinSites: 1},
 			{ID: "C20.2", Desc: "exactly one spawn, exactly one origin call", Run: ruleC20_2, MinSites: 2},
-			{ID: "C20.3", Desc: "timeout context wiring", Run: ruleC20_3, MinSites: 2},
+			{ID: "C20.3", Desc: "timeout context wiring; detached from the caller (context and Cancel channel)", Run: func(c *Ctx) { ruleC20_3(c); ruleBackgroundCancelCleared(c) }, MinSites: 2},
 			{ID: "C20.4", Desc: "timeout defaulting", Run: ruleC20_4, MinSites: 1},
 			{ID: "C20.5", Desc: "no stuck goroutine: buffered result channel, select on ctx.Done", Run: func(c *Ctx) { ruleBoundedWaits(c, "C20.5", false) }, MinSites: 3},
 			{ID: "C20.6", Desc: "background request is conditional and on a clone", Run: func(c *Ctx) { ruleC20_6(c); ruleValidatorGuards(c, "C20.6") }, MinSites: 1},
@@ -105,7 +105,7 @@ func ruleC19_1(c *Ctx) {
 	// Accept when the append's block is control-dependent on a value derived from the search.
 	dep := false
 	for _, ap := range appends {
-		for _, dc := range dominatingConds(ap.Block()) {
+		for _, dc := range controlConds(ap.Block()) {
 			if c.An.dependsOnSearch(dc.cond, sr) {
 				dep = true
 			}
@@ -127,7 +127,7 @@ func ruleC19_1(c *Ctx) {
 		}
 	})
 	if searchCall != nil {
-		for _, dc := range dominatingConds(searchCall.Block()) {
+		for _, dc := range controlConds(searchCall.Block()) {
 			b, ok := dc.cond.(*ssa.BinOp)
 			okCond := false
 			if ok {
